@@ -139,7 +139,18 @@ pub fn run(tier: Tier) -> (Stats, VioSet) {
     let mut outs = par_map(&encs, 16, |e| {
         let mut stats = Stats::new();
         let mut vios = VioSet::default();
-        families(e, tier, &mut |b, cut| dec_one(e, b, cut, &mut stats, &mut vios));
+        // the quick C01 families in both tiers (the deep 4-byte families of the C01 thorough tier
+        // exercise the decoders, not the replacement wrapper); thorough adds every 3-byte stream
+        families(e, Tier::Quick, &mut |b, cut| dec_one(e, b, cut, &mut stats, &mut vios));
+        if !q && !matches!(e.kind, spec::Kind::SingleByte(_) | spec::Kind::UserDefined | spec::Kind::Replacement) {
+            for a in 0..=255u8 {
+                for b in 0..=255u8 {
+                    for c in 0..=255u8 {
+                        dec_one(e, &[a, b, c], None, &mut stats, &mut vios);
+                    }
+                }
+            }
+        }
         // error-dense heads with clean tails: several substitutions before the point where a
         // growing receiver (String, the one-shot Cow forms) has to continue in a second call
         let bad: Option<u8> = (0x80..=0xFFu8).rev().chain([0x0E, 0x1B]).find(|&b| {
